@@ -526,7 +526,7 @@ def main():
             jobs = {m: one_mode for m in bins}
         else:
             jobs = {m: (lambda _m, _exe=exe: run_chunked(_exe, lines)) for m, exe in bins.items()}
-        plain = [i for i in range(len(lines)) if expected[i] is None or _wsweep.always_driver(lines[i])]
+        plain = [i for i in range(len(lines)) if expected[i] is None or (_wsweep.always_driver(lines[i]) and len(lines[i]) < 20000)]
         with ThreadPoolExecutor(max_workers=len(jobs) + 1) as ex:
             futs = {m: ex.submit(f, m) for m, f in jobs.items()}
             fd = ex.submit(run_chunked, driver, [lines[i] for i in plain])
